@@ -1030,8 +1030,8 @@ func (e *Exec) stepOne(op *Op) (qr queryResult) {
 			if e.Ctl.ReverseCursors > 0 {
 				e.probe("reverse-cursor")
 			}
-			if e.Ctl.Writes > 0 || e.Ctl.WriteCommits > 0 {
-				e.fail([]string{"C09"}, "C09/read-wrote", fmt.Sprintf("%s issued %d store writes", op.Brief(), e.Ctl.Writes), nil)
+			if e.Ctl.WriteCommits > 0 {
+				e.fail([]string{"C09"}, "C09/read-wrote", fmt.Sprintf("%s committed a transaction with %d store writes", op.Brief(), e.Ctl.Writes), nil)
 				return
 			}
 			qr = e.checkFindAll(op.Q, docs)
